@@ -4,6 +4,8 @@ NOTES = ("Technique family: runtime monitoring and sanitizers. Every verdict is 
          "evidence files report what the monitors saw. See DESIGN.md.")
 
 ENGINES = [
+    {"name": "migrate", "path": "harness/src/engines/migrate.rs", "serves_properties": ["C15"],
+     "kind_free_text": "differential monitor for migrate(): legacy sources from the real engine and from the independent codec; three-way comparison (independent decode of destination / independent recovery of source / real recovery of a source copy), file-system side effects, CLI exit codes"},
     {"name": "fuzzopen", "path": "harness/src/engines/fuzzopen.rs", "serves_properties": ["C17"],
      "kind_free_text": "robustness monitor: synthesised + mutated / forged device images opened by the real store in child processes under catch_unwind, panic hook, abort and hang detection, byte-identity check on rejected files, probe workload on stores that open"},
     {"name": "space", "path": "harness/src/engines/space.rs", "serves_properties": ["C05"],
@@ -36,6 +38,12 @@ _CONC_NOTE = ("Trusted: client-boundary history recording with one global logica
               "Probabilistic reach into each window, compensated by targeted delays; evidence counts, per scheduling point, arrivals / perturbed / windows in which another operation completed.")
 
 TEXT = {
+    "C15": {
+        "engine": "migrate",
+        "technique": "runtime differential monitoring of migrate() against an independent decoder, with file-system side-effect observation (hashes, directory listings, sentinels)",
+        "level_text": "Hundreds (quick) to thousands (thorough) of v1/v2 sources: devices written by the real engine in compatibility mode (updates, deletes, reuse, multi-block, TTLs, >256 and >4096 records) and synthesised corner cases (duplicates in either disk order, expired newest generation, record at the last block, v1 keys too long for v3, ambiguous markers with/without opt-in, damaged blocks, v3 source, active journal, pre-existing destination). On success the destination is v3, its independent decode equals the independent recovery of the source (expired winners kept) and the real recovery of a source copy, it reopens with TTL on (expired winners invisible, nothing older surfaces) and off, report counts match; the source hash never changes; failures leave the directory unchanged and an existing destination untouched; the CLI is run on a quarter of the cases plus usage probes (exit codes 0/1/2).",
+        "level_note": "Trusted: independent codec M6 as reference recovery; hashing/listing of the scratch directory. Concurrent external modification of the files is out of scope.",
+    },
     "C17": {
         "engine": "fuzzopen",
         "technique": "runtime robustness monitoring over generated and structure-aware forged device images (panic hook + catch_unwind, abort/hang detection from a parent process, byte-identity hashing)",
